@@ -104,6 +104,16 @@ void explore_pad_huge(Ctx &ctx) {
             PadCase c{ un, bs, padded, false, mix64(ctx.seed, mix64(un, bs)) };
             exec_case(ctx, c, run_pad, mix64(mix64(un, bs), padded), true);
         }
+    // block sizes up to SIZE_MAX with a small buffer: the padded length (one block) exists as a number but never fits: -1, nothing written
+    // (a request whose padded length itself would exceed SIZE_MAX is a misuse by contract and is not made)
+    for (size_t bs : { SIZE_MAX, SIZE_MAX - 1, SIZE_MAX - 9, SIZE_MAX - 10, SIZE_MAX - 63, ((size_t) 1 << 63) + 1, (size_t) 1 << 63, ((size_t) 1 << 63) - 1, SIZE_MAX / 3, ((size_t) 1 << 32) + 1 })
+        for (size_t un : { (size_t) 0, (size_t) 1, (size_t) 10, (size_t) 63 })
+            for (size_t cap : { un, un + 1, (size_t) 64, (size_t) 200 }) {
+                if (!ctx.mine(idx++)) continue;
+                size_t padded = 0; if (!ref::pad_len(un, bs, padded) || padded <= cap) continue;
+                PadCase c{ un, bs, cap, (un + cap) % 3 == 0, mix64(ctx.seed, mix64(un, bs)) };
+                exec_case(ctx, c, run_pad, mix64(mix64(un, bs), cap), true);
+            }
 }
 
 // buffers of 4 GiB and more (size_t is 64 bits wide; the arithmetic on lengths and positions must be too).  The buffer is a sparse private
